@@ -107,7 +107,11 @@ def make_tf(cfg):
 
 def ds_leaf_state(state, name):
   st = state.stats[name]
-  return dict(stats=[mat(x) for x in st.statistics], pre=[mat(x) for x in st.preconditioners])
+  errs = []
+  if st.statistics:
+    errs = [float(v) for v in np.asarray(st.training_metrics.inverse_pth_root_errors, np.float64).ravel()]
+  return dict(stats=[mat(x) for x in st.statistics], pre=[mat(x) for x in st.preconditioners],
+              err=[e if np.isfinite(e) else -1.0 for e in errs])
 
 
 def tf_leaf_state(state, name):
